@@ -293,3 +293,43 @@ impl Model {
         h
     }
 }
+
+impl Model {
+    /// load the ground truth of a builder-made volume
+    pub fn load_truth(&mut self, truth: &[crate::refgen::Truth], occ: crate::types::SimOcc) {
+        use std::collections::BTreeMap;
+        let mut by_path: BTreeMap<Vec<Vec<u16>>, NodeId> = BTreeMap::new();
+        by_path.insert(vec![], ROOT);
+        let mut items: Vec<&crate::refgen::Truth> = truth.iter().collect();
+        items.sort_by_key(|t| t.path.len());
+        for t in items {
+            let disp = t.display_path(occ);
+            let parent = by_path[&disp[..disp.len() - 1].to_vec()];
+            let (_, sfn, _) = t.path.last().unwrap();
+            let name = String::from_utf16_lossy(disp.last().unwrap());
+            let alias: String = crate::refdec::short_display(sfn, 0).iter().map(|b| occ.dec(*b)).collect();
+            let dd = |d: u16| (1980 + (d >> 9), (d >> 5) & 0xF, d & 0x1F);
+            let (cy, cm, cd) = dd(t.cdate);
+            let (my, mm, md) = dd(t.mdate);
+            let created = Stamp { y: cy, mo: cm, d: cd, h: t.ctime >> 11, mi: (t.ctime >> 5) & 0x3F, s: (t.ctime & 0x1F) * 2 + u16::from(t.ctime_tenth / 100), ms: u16::from(t.ctime_tenth % 100) * 10 };
+            let modified = Stamp { y: my, mo: mm, d: md, h: t.mtime >> 11, mi: (t.mtime >> 5) & 0x3F, s: (t.mtime & 0x1F) * 2, ms: 0 };
+            let id = self.nodes.len();
+            self.nodes.push(Node {
+                name,
+                alias: Some(alias),
+                is_dir: t.is_dir,
+                content: t.content.clone(),
+                children: vec![],
+                parent: Some(parent),
+                created,
+                modified,
+                accessed: dd(t.adate),
+                attrs: t.attr,
+                alive: true,
+                times_known: true,
+            });
+            self.nodes[parent].children.push(id);
+            by_path.insert(disp, id);
+        }
+    }
+}
